@@ -63,6 +63,11 @@ def run(tier, seed):
                 ex = [x for x, s, vs in taint.extraction_nodes(cppflow.Flow(fn, keep_io=True))]
                 inner = [b for b, arm in guards if b.id in body]
                 ok = bool(inner) and any(x.line >= node.line for x in ex)
+                if not ok:
+                    # the per-iteration extraction and its state test may live in a helper the body hands the stream to:
+                    # a callee that extracts from a stream parameter and throws on its failed state
+                    checked = {f['name'] for f in fns if _checks_its_stream(f)}
+                    ok = any(nm.split('::')[-1] in checked for i in body for nm, _a in F.calls_in(F.g.nodes[i]))
                 why = None if ok else ['the loop bounded by `%s` does not test a stream on each iteration: its length is '
                                        'controlled by the input value alone' % text[:60]]
             elif kind == 'allocation':
@@ -145,6 +150,27 @@ def run(tier, seed):
     _bounds(rep, prog)
     _bounds_pdf(rep, prog)
     return rep
+
+
+_CHK = {}
+
+
+def _checks_its_stream(fn):
+    """fn extracts from a stream it receives by reference and every extraction is followed by a throw guard on the stream state"""
+    k = (fn['qn'], fn.get('id'))
+    if k not in _CHK:
+        ok = False
+        try:
+            F = cppflow.Flow(fn, keep_io=True)
+            ex = taint.extraction_nodes(F)
+            gs = F.throw_guards()
+            streams = {p['name'] for p in fn['params'] if 'stream' in p.get('ty', '') and '&' in p.get('ty', '')}
+            ok = bool(ex) and bool(streams) and all(any(F.dominates(x, b) and any(st in ir.fmt(b.stmt[1]) for st in streams) for b, arm in gs)
+                                                   for x, s_, vs in ex)
+        except AnalysisBroken:
+            ok = False
+        _CHK[k] = ok
+    return _CHK[k]
 
 
 def _upper_bound(cond, names):
